@@ -71,6 +71,29 @@ def signature(src: str, r):
     return None
 
 
+def redeclared_signature(src: str, probs=None, diff_keys=None):
+    """listed finding flat_local_namespace: the source declares a local name more than once (nested or sibling blocks).
+    probs (sort problems): every problem must be `local_single_width` of such a name declared with DIFFERENT types.
+    diff_keys (differing observables of a differential run): only accepted when a name is redeclared at all (shadowing changes
+    what later statements read, so any observable written afterwards may differ)."""
+    from . import cparse as CP
+
+    try:
+        red = CP.redeclared_locals(CP.parse(src))
+    except CP.ParseError:
+        return None
+    if not red:
+        return None
+    if probs is not None:
+        if not probs:
+            return None
+        for pr in probs:
+            m = re.match(r"local_single_width: local (\w+) ", pr)
+            if not m or m.group(1) not in red or len(set(red[m.group(1)])) < 2:
+                return None
+    return "flat_local_namespace"
+
+
 def valueless_signature(src: str, probs):
     """listed finding valueless_expression_statement: the source has an expression statement without any effect (`RsV + 1;`) and every
     problem is an operand or operation of such a statement left unused"""
